@@ -1,5 +1,7 @@
 package oidc
 
+import "encoding/json"
+
 // UserInfo implements OpenID Connect Core 1.0, section 5.1.
 // https://openid.net/specs/openid-connect-core-1_0.html#StandardClaims.
 type UserInfo struct {
@@ -73,7 +75,19 @@ type UserInfoEmail struct {
 type Bool bool
 
 func (bs *Bool) UnmarshalJSON(data []byte) error {
-	if string(data) == "true" || string(data) == `"true"` {
+	if string(data) == "true" {
+		*bs = true
+		return nil
+	}
+
+	// Compare the decoded string instead of the raw bytes, so that
+	// "true" is also recognized when it is spelled with escape sequences.
+	var s string
+	if err := json.Unmarshal(data, &s); err != nil {
+		// not a string: like any other value it leaves the field unchanged
+		return nil
+	}
+	if s == "true" {
 		*bs = true
 	}
 
